@@ -76,7 +76,10 @@ def run_model(ctx, g):
 def run_one(ctx, gen_kwargs, depth, check_access=True, tag="c01"):
     """generate + execute one program; compare with the model; returns the ProgGen."""
     rng = ctx.rng
+    setup = gen_kwargs.pop('setup', None)
     g = tprog.ProgGen(rng, ops=gen_kwargs.pop('ops', OPS), **gen_kwargs)
+    if setup:
+        setup(g)
     t0 = time.time()
     from ..core import time_limit, CaseTimeout
     try:
